@@ -133,3 +133,18 @@ CHECKS["C09"] = {
          "checks_quick": 60, "checks_thorough": 1500, "shards_quick": 8, "shards_thorough": 16, "timeout_quick": 300, "timeout_thorough": 1800},
     ],
 }
+
+CHECKS["C19"] = {
+    "level": "exploration",
+    "technique": "model-based property testing: one reference model per DMap over colliding names/keys (rapid)",
+    "level_text": ("A generated sequence of operations (Put/Get/Delete/Expire/Incr/GetPut/Lock/Unlock/Scan/Destroy through random entry paths) runs on 2-3 DMaps whose names and keys are chosen so that "
+                   "name+key concatenations coincide (\"ab\"+\"c\" vs \"a\"+\"bc\") and keys are shared; every result must match the DMap's own model and after every step every other DMap must still read exactly its model. "
+                   "After Destroy no member stores an entry of that DMap in any primary or backup partition (white box), every key reads not-found from every member, a scan is empty, and the DMap accepts new writes."),
+    "level_note": "trusted: harness accessor listing fragment keys; per-DMap eviction limits are not part of this check (LRU makes the model non-deterministic), they are exercised in C10",
+    "rule": ("case = (cluster shape, colliding name set, key set, 5-40 operations); non-trivial = a Destroy of a non-empty DMap, or a Destroy/Delete/Lock/Incr on a key that another DMap holds under the same key or the same concatenation; distinct = distinct case hash"),
+    "assumptions": ["membership stable (pooled clusters)"],
+    "parts": [
+        {"name": "dmaps", "pkg": ROOT, "test": "TestVerifC19", "kind": "rapid",
+         "checks_quick": 80, "checks_thorough": 2000, "shards_quick": 8, "shards_thorough": 16, "timeout_quick": 300, "timeout_thorough": 1800},
+    ],
+}
